@@ -191,6 +191,66 @@ theorem cursor_wrong_position_reported (w : Wrapper) (hw : needsPre w = true) (b
         cur ≠ some (dataGeoOf bo buf l v.lvl v.wbl k d).start := ⟨hw, by simp [hb], hne⟩
     rw [if_pos hcond]; rfl
 
+/-! ### cursor ranges and sub-ranges -/
+
+/-- **cursor_subrange_spec**: for every group header, every `pos` and every
+    `count`, a checked build hands out exactly the documented range —
+    `cursor_range(c)` = `[0, size())`, `cursor_subrange(c, pos)` = `[pos, size())`,
+    `cursor_subrange(c, pos, count)` = `[pos, pos + count)`, entries' block
+    length from the dimension header — and reports a violated precondition
+    (`pos < size()`, `count <= size() - pos`) -/
+theorem cursor_subrange_spec (bo : ByteOrder) (buf : List Nat) (e : Nat) (dim : Dim) (p : Nat) (k : RangeKind)
+    (hin : p + dim.size ≤ e) :
+    mkRange bo buf (some e) dim p k
+      = match rangeSpec (rd bo buf (p + dim.numOff) dim.numSize) k with
+        | some (s, l) => .ok ⟨rd bo buf (p + dim.blOff) dim.blSize, s, l⟩
+        | none => .error .precondition :=
+  mkRange_spec bo buf e dim p k hin
+
+/-- the same ranges in an unchecked build whenever the preconditions hold -/
+theorem cursor_subrange_spec_unchecked (bo : ByteOrder) (buf : List Nat) (dim : Dim) (p : Nat) (k : RangeKind)
+    (s l : Nat) (h : rangeSpec (rd bo buf (p + dim.numOff) dim.numSize) k = some (s, l)) :
+    mkRange bo buf none dim p k = .ok ⟨rd bo buf (p + dim.blOff) dim.blSize, s, l⟩ :=
+  mkRange_unchecked bo buf dim p k s l h
+
+/-- **cursor_range_iteration**: with the cursor at the start of entry `s`, the
+    complete iteration of a range of `len` entries creates entry `s+i` at its
+    random-access address `entryPos g p (s+i)` in the `i`-th step and ends with
+    the cursor at the end of entry `s+len-1`, i.e. at `entryPos g p (s+len)` -/
+theorem cursor_range_iteration (bo : ByteOrder) (buf : List Nat) (dim : Dim) (l : GLevel) (endp : Option Nat)
+    (p s len : Nat) (hg : GoodL 0 l)
+    (hf : ∀ i, s ≤ i → i < s + len →
+      FitL bo buf l (entryPos bo buf (.mk dim l.erase) p i) (rd bo buf (p + dim.blOff) dim.blSize))
+    (hin : Inside endp (entryPos bo buf (.mk dim l.erase) p (s + len))) :
+    iterE (fun c =>
+        match derefEntry l.emptyCtor endp c (rd bo buf (p + dim.blOff) dim.blSize) with
+        | .error e => .error e
+        | .ok (ev, c') => travL bo buf l ev c') len (some (entryPos bo buf (.mk dim l.erase) p s))
+      = .ok (some (entryPos bo buf (.mk dim l.erase) p (s + len))) :=
+  range_iteration_end bo buf dim l endp p _ s len hg hf hin
+
+/-! ### checked builds stay inside the view (holds since `SBEPP_SIZE_CHECK` rejects
+    a view that begins past its end pointer) -/
+
+/-- what passes `SBEPP_SIZE_CHECK` lies inside `[begin, end)` -/
+theorem size_check_sound (e : Nat) (begin : Option Nat) (off size : Nat)
+    (h : sizeCheck (some e) begin off size = .ok ()) : ∃ b, begin = some b ∧ b + off + size ≤ e :=
+  sizeCheck_sound e begin off size h
+
+/-- every value a cursor-based getter of a scalar field returns in a checked
+    build — through any wrapper, from a legal position or not — was read inside
+    the view -/
+theorem cursor_checked_get_inside_view (w : Wrapper) (v : LView) (buf : List Nat) (cur : Option Nat) (a : Acc)
+    (e : Nat) (st : Step) (he : v.endp = some e) (hnv : a.isView = false) (h : stepField w v buf cur a = .ok st) :
+    ∃ start, start + a.size ≤ e ∧ (w ≠ .skip → st.res = .value (slice buf start a.size)) :=
+  checked_get_inside w v buf cur a e st he hnv h
+
+/-- every cursor-based setter that returns in a checked build wrote inside the view -/
+theorem cursor_checked_set_inside_view (w : Wrapper) (v : LView) (buf : List Nat) (cur : Option Nat) (a : Acc)
+    (value : List Nat) (e : Nat) (st : Step) (he : v.endp = some e) (h : stepSet w v buf cur a value = .ok st) :
+    ∃ start, start + a.size ≤ e ∧ st.buf = writeAt buf start value :=
+  checked_set_inside w v buf cur a value e st he h
+
 /-! ### complete traversal -/
 
 /-- full-strength statement: *every* level of a well-formed generated tree —
